@@ -80,6 +80,7 @@ pub mod frp_m {
 use super::*;
 impl CanonicalRequest {
 //@ fn canonical.rs impl CanonicalRequest :: from_request_parts
+//@ params parts body options
 //@ hideutf8
 //@ props C08 C01 C09 C10 C11 C12 C13 C15 C17
 //@ ret r
@@ -102,6 +103,7 @@ impl CanonicalRequest {
         }, //# C12 C13 name=undecodable_or_malformed_form_body_is_refused
         r is Err ==> (r->Err_0 is InvalidURIPath || r->Err_0 is MalformedQueryString || r->Err_0 is InvalidBodyEncoding), //# C13 name=stage_error_kinds
         d6_ok(parts) && frp_accepts(parts, body, options) ==> r is Ok, //# C02 C12 name=well_formed_request_is_accepted_by_canonicalisation
+        d6_ok(parts) && r is Err && canon_path(parts.uri.path, options.s3) is Some ==> !(r->Err_0 is InvalidURIPath), //# C13 name=path_error_only_for_a_bad_path
         d6_ok(parts) && r is Ok ==> frp_ok(parts, body, options, r->Ok_0.0, r->Ok_0.1, r->Ok_0.2), //# C01 C09 C10 C11 C12 C15 C19 name=canonical_request_is_that_of_the_request_as_received_and_request_passes_through
 //@ bodystart
     let ghost parts0 = parts;
@@ -227,6 +229,7 @@ pub trait IntoRequestBytesBody: Sized {
 impl IntoRequestBytesBody for () {
     open spec fn bytes_of(self) -> Seq<u8> { Seq::<u8>::empty() }
 //@ fn signature.rs impl IntoRequestBytes for () :: into_request_bytes
+//@ params
 //@ props C08 C15
 //@ ret r
 //@ replace 1 `async fn` => `fn`
@@ -235,6 +238,7 @@ impl IntoRequestBytesBody for () {
 impl IntoRequestBytesBody for Vec<u8> {
     open spec fn bytes_of(self) -> Seq<u8> { self@ }
 //@ fn signature.rs impl IntoRequestBytes for Vec<u8> :: into_request_bytes
+//@ params
 //@ props C08 C15
 //@ ret r
 //@ replace 1 `async fn` => `fn`
@@ -243,6 +247,7 @@ impl IntoRequestBytesBody for Vec<u8> {
 impl IntoRequestBytesBody for Bytes {
     open spec fn bytes_of(self) -> Seq<u8> { self.data }
 //@ fn signature.rs impl IntoRequestBytes for Bytes :: into_request_bytes
+//@ params
 //@ props C08 C15
 //@ ret r
 //@ replace 1 `async fn` => `fn`
@@ -319,17 +324,54 @@ pub proof fn vk_completeness_hint<G>(parts: Parts, bb: Result<Bytes, BoxError>, 
 }
 
 // (own module: one solver context per module keeps this function's query independent of the rest of the unit)
+/// the SignatureError inside a failure of the built-in entry point
+pub open spec fn sig_err<T>(r: Result<T, BoxError>) -> SignatureError { r->Err_0.payload::<SignatureError>() }
+/// C13 (documented precedence, end to end): a refusal is that of the EARLIEST failing rule - it is justified by one stage's failure together with
+/// witnesses that every earlier stage passed. Rules 1-4 (path, then URL query, then form body) come first; for the canonical request they
+/// yield, rules 5-9 in their order (rules_5_to_9_verdict); for the authenticator built from it, rules 10-13 in their order (pre_verdict); then
+/// the provider's own error, passed through; and only then the signature comparison.
+pub open spec fn refusal_follows_precedence<G>(parts: Parts, body: Bytes, options: SignatureOptions, always: Seq<Seq<u8>>, ifreq: Seq<Seq<u8>>, prefixes: Seq<Seq<u8>>,
+    region: &str, service: &str, now: DateTime<Utc>, g0: G, e: SignatureError) -> bool
+{
+    ||| (canon_path(parts.uri.path, options.s3) is None && e is InvalidURIPath)
+    ||| (canon_path(parts.uri.path, options.s3) is Some && parse_query(url_query(parts)) is None && e is MalformedQueryString)
+    ||| (canon_path(parts.uri.path, options.s3) is Some && parse_query(url_query(parts)) is Some && !frp_accepts(parts, body, options)
+            && (e is InvalidBodyEncoding || e is MalformedQueryString))
+    ||| exists|cr: CanonicalRequest, parts2: Parts, body2: Bytes| #[trigger] refused_by_rules_5_to_9(parts, body, options, always, ifreq, prefixes, cr, parts2, body2, e)
+    ||| exists|cr: CanonicalRequest, parts2: Parts, body2: Bytes, a: SigV4Authenticator, d: Duration|
+            #[trigger] refused_after_rule_9::<G>(parts, body, options, always, ifreq, prefixes, region, service, now, g0, cr, parts2, body2, a, d, e)
+}
+pub open spec fn refused_by_rules_5_to_9(parts: Parts, body: Bytes, options: SignatureOptions, always: Seq<Seq<u8>>, ifreq: Seq<Seq<u8>>, prefixes: Seq<Seq<u8>>,
+    cr: CanonicalRequest, parts2: Parts, body2: Bytes, e: SignatureError) -> bool
+{
+    frp_ok(parts, body, options, cr, parts2, body2) && !cr.acceptable_authenticator(always, ifreq, prefixes) && cr.rules_5_to_9_verdict(always, ifreq, prefixes, e)
+}
+pub open spec fn refused_after_rule_9<G>(parts: Parts, body: Bytes, options: SignatureOptions, always: Seq<Seq<u8>>, ifreq: Seq<Seq<u8>>, prefixes: Seq<Seq<u8>>,
+    region: &str, service: &str, now: DateTime<Utc>, g0: G, cr: CanonicalRequest, parts2: Parts, body2: Bytes, a: SigV4Authenticator, d: Duration, e: SignatureError) -> bool
+{
+    &&& frp_ok(parts, body, options, cr, parts2, body2) && cr.authenticator_ok(always, ifreq, prefixes, a) && fifteen_minutes(d)
+    &&& if !a.pre_ok(region.spec_bytes(), service.spec_bytes(), now, d) {
+            a.pre_verdict(region.spec_bytes(), service.spec_bytes(), now, d, e)
+        } else {
+            exists|req: GetSigningKeyRequest| #[trigger] a.is_provider_request(region@, service@, req) && match provider_answer::<G, GetSigningKeyRequest, GetSigningKeyResponse, BoxError>(g0, req) {
+                Err(pe) => e == wrap_box_error(pe),
+                Ok(resp) => a.sig() != a.expected_sig(resp.s_key()) && e is SignatureDoesNotMatch,
+            }
+        }
+}
+
 pub mod validate_m {
 use super::*;
 //@ fn signature.rs sigv4_validate_request
+//@ params request region service get_signing_key server_timestamp required_headers options
 //@ hideutf8
 //@ props C08 C01 C02 C04 C13 C14 C15 C17
 //@ ret r
 //   (this Verus version gives no specification to the error conversion hidden in `?` when the error types differ; the three converting `?`
 //    are desugared to what they mean: `match e { Ok(v) => v, Err(e) => return Err(From::from(e)) }`)
 //@ replace 1 `CanonicalRequest::from_request_parts(parts, body, options)?;` => `match CanonicalRequest::from_request_parts(parts, body, options) { Ok(v) => v, Err(e) => return Err(BoxError::from(e)) };`
-//@ replace 1 `canonical_request.get_authenticator(required_headers)?;` => `match canonical_request.get_authenticator(required_headers) { Ok(v) => v, Err(e) => return Err(BoxError::from(e)) };`
-//@ replace 1 `        )<NL>        .await?;` => `        ).await; proof { vk_completeness_hint::<G>(request.parts, request.body.body_bytes(), options, required_headers.always_spec(), required_headers.if_in_request_spec(), required_headers.prefixes_spec(), region, service, server_timestamp, *old(get_signing_key), canonical_request, parts, body, auth); } let sigv4_response = match sigv4_response { Ok(v) => v, Err(e) => return Err(BoxError::from(e)) };`
+//@ replace 1 `canonical_request.get_authenticator(required_headers)?;` => `match canonical_request.get_authenticator(required_headers) { Ok(v) => v, Err(e) => { proof { if request.body.body_bytes() is Ok { assert(refused_by_rules_5_to_9(request.parts, request.body.body_bytes()->Ok_0, options, required_headers.always_spec(), required_headers.if_in_request_spec(), required_headers.prefixes_spec(), canonical_request, parts, body, e)); } } return Err(BoxError::from(e)) } };`
+//@ replace 1 `        )<NL>        .await?;` => `        ).await; proof { vk_completeness_hint::<G>(request.parts, request.body.body_bytes(), options, required_headers.always_spec(), required_headers.if_in_request_spec(), required_headers.prefixes_spec(), region, service, server_timestamp, *old(get_signing_key), canonical_request, parts, body, auth); } let sigv4_response = match sigv4_response { Ok(v) => v, Err(e) => { proof { if request.body.body_bytes() is Ok { assert(fifteen_minutes(Duration { ns: 900_000_000_000int })); assert(refused_after_rule_9::<G>(request.parts, request.body.body_bytes()->Ok_0, options, required_headers.always_spec(), required_headers.if_in_request_spec(), required_headers.prefixes_spec(), region, service, server_timestamp, *old(get_signing_key), canonical_request, parts, body, auth, Duration { ns: 900_000_000_000int }, e)); } } return Err(BoxError::from(e)) } };`
 //@ spec
     requires
         forall|i: int| 0 <= i < required_headers.always_spec().len() ==> all_ascii(#[trigger] required_headers.always_spec()[i]),
@@ -347,6 +389,9 @@ use super::*;
         request.body.body_bytes() is Ok && acceptable::<G>(request.parts, request.body.body_bytes()->Ok_0, options, required_headers.always_spec(),
             required_headers.if_in_request_spec(), required_headers.prefixes_spec(), region, service, server_timestamp, *old(get_signing_key))
             ==> r is Ok, //# C02 name=request_meeting_every_acceptance_condition_is_accepted
+        // C13: whatever combination of defects the request has, the refusal is that of the earliest failing rule
+        r is Err && request.body.body_bytes() is Ok ==> refusal_follows_precedence::<G>(request.parts, request.body.body_bytes()->Ok_0, options, required_headers.always_spec(),
+            required_headers.if_in_request_spec(), required_headers.prefixes_spec(), region, service, server_timestamp, *old(get_signing_key), sig_err(r)), //# C13 name=refusal_is_that_of_the_earliest_failing_rule
         // C14: at most one provider call
         final(get_signing_key).calls() == old(get_signing_key).calls()
             || exists|req: GetSigningKeyRequest| final(get_signing_key).calls() == old(get_signing_key).calls().push(req), //# C14 name=provider_called_at_most_once
